@@ -321,7 +321,7 @@ Definition m_snapshot (s : iset) : res ret :=
   | _, _, Raise e => Raise e
   end.
 
-Definition m_step (c : cfg) (s : iset) (o : op) : iset * res ret :=
+Definition m_step1 (c : cfg) (s : iset) (o : op) : iset * res ret :=
   match o with
   | Add x => (m_add s x, Ok RNone)
   | Remove x => m_remove c s x
@@ -353,6 +353,20 @@ Definition m_step (c : cfg) (s : iset) (o : op) : iset * res ret :=
   | Iter => (s, Ok (RList (m_live s)))
   | Reversed => (s, Ok (RList (rev (m_live s))))
   | Snapshot => (s, m_snapshot s)
+  | SelfOp _ => (s, Raise NotModelled)
+  end.
+
+(* Calls whose operand is the set itself.  Every method except symmetric_difference_update reads the
+   operand (membership, iteration, len, ==) only before its first mutation of self - update(s) adds
+   items that are all present, intersection_update/difference_update first build a new IndexedSet, and
+   difference_update's `self in others` is true by identity, which as_operand also makes true through
+   __eq__ - so the aliased call behaves as the call on a snapshot of the live items.
+   symmetric_difference_update tests `self is other`, clears, and then iterates the emptied set. *)
+Definition m_step (c : cfg) (s : iset) (o : op) : iset * res ret :=
+  match o with
+  | SelfOp SSymDiffUpdate => (m_clear s, Ok RNone)
+  | SelfOp k => m_step1 c s (expand_self k (as_operand s))
+  | _ => m_step1 c s o
   end.
 
 Definition m_obs (digests : bool) (s : iset) (r : res ret) : obs :=
